@@ -64,17 +64,18 @@ func caseVariant(s string, k int) string {
 
 // c20Config is one configuration with what the documentation says must happen.
 type c20Config struct {
-	opts      map[string]string // option name (flag spelling without dashes) -> value
-	yamlExtra string            // extra YAML (peers)
-	route     int               // 0 flags, 1 environment, 2 YAML file
-	refuse    bool              // start-up must fail with a non-zero exit
-	wantVer   primitive.ProtocolVersion
-	wantMax   primitive.ProtocolVersion
-	unsup     primitive.ConsistencyLevel
-	override  primitive.ConsistencyLevel
-	checkCL   bool
-	dse       bool
-	desc      string
+	opts       map[string]string         // option name (flag spelling without dashes) -> value
+	yamlExtra  string                    // extra YAML (peers)
+	backendMax primitive.ProtocolVersion // if set: the highest version the backend speaks
+	route      int                       // 0 flags, 1 environment, 2 YAML file
+	refuse     bool                      // start-up must fail with a non-zero exit
+	wantVer    primitive.ProtocolVersion
+	wantMax    primitive.ProtocolVersion
+	unsup      primitive.ConsistencyLevel
+	override   primitive.ConsistencyLevel
+	checkCL    bool
+	dse        bool
+	desc       string
 }
 
 var c20Env = map[string]string{"protocol-version": "PROTOCOL_VERSION", "max-protocol-version": "MAX_PROTOCOL_VERSION", "contact-points": "CONTACT_POINTS",
@@ -120,6 +121,12 @@ func c20(e *Env) {
 		cc.dse = a.v.IsDse()
 		cc.refuse = a.v > b.v
 		cc.desc = fmt.Sprintf("pair protocol-version=%s max-protocol-version=%s", a.text, b.text)
+		if cc.refuse && c.Choose("backend-lags", 2) == 1 {
+			// the backend speaks less than what is configured (the proxy would negotiate down): the
+			// configuration is contradictory all the same
+			cc.backendMax = []primitive.ProtocolVersion{3, 4}[c.Choose("backend-lags-at", 2)]
+			cc.desc += fmt.Sprintf(" (backend speaks up to %s)", cc.backendMax)
+		}
 	case 3: // consistency names
 		u := c20Consistencies[idx%11]
 		o := c20Consistencies[(idx/11)%11]
@@ -260,6 +267,10 @@ func c20(e *Env) {
 		cfgW.BackendMax = primitive.ProtocolVersionDse2
 	} else {
 		cfgW.BackendMax = 5
+	}
+	if cc.backendMax != 0 {
+		cfgW.DSE = false
+		cfgW.BackendMax = cc.backendMax
 	}
 	w := world.New(cfgW, e.S, e.N, e.C)
 	e.W = w
